@@ -10,7 +10,7 @@ import sys
 from common import (Report, Violation, parallel_map, h, log)
 from gen import Col, Table, gen_rows, lit, INT_TYPES
 from model import ModelTable, gen_pred, py_row
-from sqlcase import RL, DISK_LAYOUTS, ms
+from sqlcase import sql_retry, RL, DISK_LAYOUTS, ms
 
 TYPES = ("INT", "BIGINT", "SMALLINT", "BOOLEAN", "VARCHAR", "DOUBLE", "DECIMAL(10,2)", "DATE")
 NAMES = ["ta", "tb", "tc", "td"]
@@ -139,7 +139,7 @@ def run_case(args):
                 mt = model[rng.choice(sorted(model))]
                 p = gen_pred(rng, mt.table)
                 sql = f"delete from {mt.table.name} where {p.sql}"
-                r = rl.sql(sql)
+                r = sql_retry(rl, sql)
                 hist.append((sql, r["ok"]))
                 res["stmts"] += 1
                 if r.get("dead"):
